@@ -58,6 +58,34 @@ def _spliced_only_into_allowed(ctx, core, b, ctor):
     return bool(callers) and all((c, ctor) in TEMPLATE_ALLOW for c in callers)
 
 
+SPAN_WRITING_METHODS = re.compile(r"^core::option::Option::<T>::(get_or_insert_with|get_or_insert|insert|replace|take|as_mut)$")
+
+
+def span_method_writes(ctx, b):
+    """calls of a mutating Option method on `<Error>.span`"""
+    out = []
+    for blk, t in b.calls():
+        name = mir.callee_of(t) or ""
+        if not SPAN_WRITING_METHODS.match(name) or not t["args"]:
+            continue
+        a0 = t["args"][0]
+        if a0["k"] not in ("copy", "move"):
+            continue
+        e = ctx.expr(b, a0)
+        if re.search(r"(^|\.)span$", e) and "darling_core::error::Error" in _base_ty(b, a0):
+            out.append((blk, t))
+    return out
+
+
+def _base_ty(b, op):
+    """type of the local a `&mut x.span` operand was borrowed from"""
+    l = op["p"]["local"]
+    for d in b.defs().get(l, []):
+        if d[2] == "assign" and d[3]["r"]["k"] == "ref":
+            return b.local_ty(d[3]["r"]["p"]["local"])
+    return b.local_ty(l)
+
+
 def first_writer_wins(ctx, f, writes, what, new_value_rx):
     """Every write to self.span either happens where the span is still None, or stores the value it
     already had — `if self.span.is_none() { self.span = Some(s) }` and
@@ -120,8 +148,22 @@ def run(ctx):
     f = ctx.fn(E + "with_span")
     if f:
         asg = ctx.find_field_assigns(f, "span", 1)
-        ctx.ob("C03.G.with-span-shape", f.key, "one assignment to self.span", len(asg) == 1, "%d assignments" % len(asg))
+        mw = span_method_writes(ctx, f)
+        ctx.ob("C03.G.with-span-shape", f.key, "one write of self.span", len(asg) + len(mw) == 1, "%d assignments, %d Option-method writes" % (len(asg), len(mw)))
         first_writer_wins(ctx, f, asg, "self.span = Some(node.span())", r"Some\{[^{}]*Spanned(>)?::span\(a2\)\}$")
+        for blk, t in mw:
+            # `self.span.get_or_insert_with(|| node.span())` writes only when the span is None
+            name = mir.callee_of(t) or ""
+            benign = name.endswith("::get_or_insert_with") or name.endswith("::get_or_insert")
+            val = ctx.expr(f, t["args"][1]) if len(t["args"]) > 1 else ""
+            okv = False
+            if name.endswith("::get_or_insert_with"):
+                for c in ctx.closures_of(f):
+                    if c.key in val:
+                        okv = all(re.search(r"Spanned(>)?::span\(node\)$|Spanned(>)?::span\(\(?a1", e) or "span(" in e for e in ctx.ret_values(c))
+            else:
+                okv = "span(a2)" in val
+            ctx.ob("C03.G.first-writer-wins", f.key, "self.span.%s(..)" % name.rsplit("::", 1)[-1], benign and okv, "Option method %s with value %s: only get_or_insert(_with) keeps an existing span" % (name, val[:100]))
     f = ctx.fn(E + "has_span")
     if f:
         rs = ctx.ret_values(f)
@@ -143,6 +185,9 @@ def run(ctx):
                     writers.add(b.key)
             if st["r"]["k"] == "aggregate" and st["r"]["agg"] == "adt" and st["r"]["adt"] == "darling_core::error::Error":
                 writers.add(b.key)
+        # writes through `&mut self.span` handed to an Option method (get_or_insert_with, insert, replace, take)
+        for blk, t in span_method_writes(ctx, b):
+            writers.add(b.key)
     allowed = {E + "new", E + "with_span", "<darling_core::error::Error as core::convert::From<syn::error::Error>>::from"}
     ctx.ob("C03.who.span-writers", "darling_core::error::Error.span", "functions that write the span field", writers <= allowed and (E + "with_span") in writers,
            "writers: %s" % sorted(writers))
@@ -256,7 +301,7 @@ def run(ctx):
         txt = " ".join(T.render(T.root_streams()[-1])) if T.root_streams() else ""
         n = len(re.findall(r"\. map_err \( \| e \| e \. with_span \( & __inner \) \. at \(", txt))
         ctx.ob("C03.H.extractor-span-then-location", f.key, ".map_err(|e| e.with_span(&__inner).at(..))", n >= 2, "%d extractor templates end in with_span(&__inner).at(..)" % n)
-        ctx.ob("C03.H.duplicate-spanned", f.key, "duplicate_field(..).with_span(&__inner)", "duplicate_field ( ⟨alloc::borrow::Cow<'_, alloc::string::String>⟩ ) . with_span ( & __inner )" in txt, txt[:200])
+        ctx.ob("C03.H.duplicate-spanned", f.key, "duplicate_field(..).with_span(&__inner)", "duplicate_field ( ⟨str⟩ ) . with_span ( & __inner )" in txt, txt[:200])
 
     # ------------------------------------------------------------ [B] derived: every extraction adds span + location
     pop = derived.population(ctx)
